@@ -317,9 +317,40 @@ impl Skiplist {
 	}
 
 	/// Add a key
+	#[cfg_attr(not(test), allow(dead_code))]
 	pub fn add(&self, key: &[u8], trailer: u64, timestamp: u64, value: &[u8]) -> Result<(), Error> {
+		self.add_with_height(key, trailer, timestamp, value, None)
+	}
+
+	/// Add a key whose tower height was drawn beforehand (`draw_height`), so that the
+	/// caller knows the exact arena footprint (`alloc_size`) before inserting.
+	pub(crate) fn add_with_height(
+		&self,
+		key: &[u8],
+		trailer: u64,
+		timestamp: u64,
+		value: &[u8],
+		height: Option<u32>,
+	) -> Result<(), Error> {
 		let mut ins = Inserter::new();
-		self.add_internal(key, trailer, timestamp, value, &mut ins)
+		self.add_internal(key, trailer, timestamp, value, height, &mut ins)
+	}
+
+	/// Draws a tower height for a node to be added with `add_with_height`.
+	pub(crate) fn draw_height(&self) -> u32 {
+		self.random_height()
+	}
+
+	/// Exact number of arena bytes the allocation of one node consumes.
+	pub(crate) const fn alloc_size(height: u32, key_len: usize, value_len: usize) -> usize {
+		// node (tower truncated to `height`) + key + value, padded for alignment (see `Arena::alloc`)
+		MAX_NODE_SIZE - (MAX_HEIGHT - height as usize) * LINKS_SIZE + key_len + value_len + 7
+	}
+
+	/// Largest number of bytes that must remain in the arena behind an allocation
+	/// (the part of a full tower a shorter node does not use).
+	pub(crate) const fn max_unused_tower() -> usize {
+		(MAX_HEIGHT - 1) * LINKS_SIZE
 	}
 
 	/// Internal add
@@ -329,6 +360,7 @@ impl Skiplist {
 		trailer: u64,
 		timestamp: u64,
 		value: &[u8],
+		height: Option<u32>,
 		ins: &mut Inserter,
 	) -> Result<(), Error> {
 		// Find splice
@@ -337,7 +369,7 @@ impl Skiplist {
 		}
 
 		// Allocate node
-		let (nd, height) = self.new_node(key, trailer, timestamp, value)?;
+		let (nd, height) = self.new_node(key, trailer, timestamp, value, height)?;
 		let nd_offset = self.arena.get_pointer_offset(nd as *const u8);
 
 		// Link at each level
@@ -414,8 +446,9 @@ impl Skiplist {
 		trailer: u64,
 		timestamp: u64,
 		value: &[u8],
+		height: Option<u32>,
 	) -> Result<(*mut Node, u32), Error> {
-		let height = self.random_height();
+		let height = height.unwrap_or_else(|| self.random_height());
 		let nd = new_node(&self.arena, height, key, trailer, timestamp, value)
 			.ok_or(Error::ArenaFull)?;
 
